@@ -292,8 +292,49 @@ def check(run):
                     run.check(not spins, 'R4', 'search-loop-advances', '%s: loop on %s = search(%s, ..)' % (hf.norm, lv.get('name'), oname), hf.loc(lp),
                               'a trip round the loop can return to its condition without `%s` having been moved past the match (%s = %s + k, k > 0): the next search starts at the same place and finds the same match - for a target such as "/../x" parse_request() never terminates' % (oname, oname, lv.get('name')),
                               '%s is advanced past the match on every cycle' % oname)
+        # a loop without a condition (for(;;) with the search inside): the search itself takes the place of the condition
+        for lp in [n for n in hf.all_nodes() if n['k'] in ('while', 'for', 'do') and not is_node(n.get('cond'))]:
+            inside = {id(x) for x in walk(lp)}
+            for v_ in [v for n in walk(lp) if n['k'] == 'decl' for v in n['vars'] if is_node(v.get('init'))]:
+                srch = [y for y in walk(v_['init']) if y['k'] == 'call' and (q.callee_name(y) or '').split('::')[-1] in ('strchr', 'memchr', 'strstr', 'find') and y.get('args')]
+                for c_ in srch:
+                    for y in [y for y in walk(c_['args'][0]) if y['k'] == 'ref' and y.get('dk') == 'local']:
+                        nloops += 1
+                        adv = [s_ for s_, d_ in q.local_defs(hf, y['did']) if id(s_) in inside and (lambda lf: lf is not None and lf[0] == {v_.get('name'): 1} and lf[1] > 0)(q.linform(hf, d_))]
+                        cb = hf.cfg.node_block(c_)
+                        spins = cb is None or not adv or (cb in hf.cfg.reach_from(cb, avoid={hf.cfg.node_block(a_) for a_ in adv} - {None}))
+                        run.check(not spins, 'R4', 'search-loop-advances', '%s: loop on %s = search(%s, ..)' % (hf.norm, v_.get('name'), y.get('name')), hf.loc(lp),
+                                  'a trip round the loop can return to the search without `%s` having been moved past the match' % y.get('name'), '%s is advanced past the match on every cycle' % y.get('name'))
     if nloops < 1:
         run.broke('normalize(): no search loop found (strchr loop confirmed by hand)')
+    run.clause('only a COMPLETE segment (one that a \'/\' follows) can be a detour: elements are removed from the path only where the search for the next \'/\' is known to have succeeded; the text after the last \'/\' is kept as it is')
+    for hf in [g_ for g_ in fx.repo_functions() if g_.norm in ('sim::normalize',)]:
+        svars = set()
+        for n in hf.all_nodes():
+            if n['k'] == 'decl':
+                for v in n['vars']:
+                    if is_node(v.get('init')) and any(y['k'] == 'call' and (q.callee_name(y) or '').split('::')[-1] in ('strchr', 'memchr', 'strstr') for y in walk(v['init'])):
+                        svars.add(v.get('name'))
+        pops = [c for c in hf.calls() if (c.get('callee') or '').split('::')[-1] in ('erase', 'pop_back', 'resize', 'clear') and 'vector' in (c.get('callee') or '')]
+        if not svars or not pops:
+            run.broke('normalize(): %s (the detour-removal idiom changed)' % ('no strchr-style search variable' if not svars else 'no removal from the element vector'))
+            continue
+        for c in pops:
+            found = False
+            for a_, p_ in q.guards_at(hf, c):
+                a_ = q.strip_casts(a_)
+                if a_['k'] == 'ref' and a_.get('name') in svars and p_:
+                    found = True
+                ca = q.cmp_atom(a_)
+                if ca and ca[0] in ('!=', '=='):
+                    l_, r_ = q.strip_casts(ca[1]), q.strip_casts(ca[2])
+                    for x_, y_ in ((l_, r_), (r_, l_)):
+                        if x_['k'] == 'ref' and x_.get('name') in svars and (q.int_value(y_) == 0 or y_['k'] in ('nullptr', 'null') or q.render(hf, y_) in ('NULL', 'nullptr', '0', '__null')):
+                            if (ca[0] == '!=') == bool(p_):
+                                found = True
+            run.check(found, 'R5', 'detour-needs-following-slash', '%s: %s' % (hf.norm, q.render(hf, c)[:50]), hf.loc(c),
+                      'an element is removed from the path where the search for the next \'/\' may have found nothing: the text after the LAST \'/\' is treated as a detour too - "/a/b/.." becomes "/a" and "/foo/.." loses its leading \'/\' (the empty string)',
+                      'dominated by <search result> != NULL')
     run.clause('last duplicate header wins: the header map is written by overwrite (operator[] assignment), not by first-wins insertion')
     hw = []
     for n in pr.all_nodes():
